@@ -589,7 +589,8 @@ class Interp(ExprEnc):
                 comps[c.name.lower()] = self.make_object(c, c.type, prefix, is_input, frame, qual=f'{name}__{c.name}')
             return DT(name, comps)
         sort = self.sort_of_type(t)
-        shape = getattr(v, 'shape', None) or (getattr(v, 'dimensions', None) if isinstance(v, sym.Array) else None)
+        # the declaration's own dimensions are authoritative (type.shape in the symbol table can be stale)
+        shape = (getattr(v, 'dimensions', None) if isinstance(v, sym.Array) else None) or getattr(v, 'shape', None)
         if isinstance(v, sym.Array) or shape:
             if t.allocatable or t.pointer:
                 a = Arr(name, [(1, 0)] * len(shape), sort)
@@ -788,7 +789,7 @@ class Interp(ExprEnc):
         saved = self.frame
         self.frame = fr
         try:
-            shape = dummy.shape or dummy.dimensions
+            shape = dummy.dimensions or dummy.shape
             bounds, assumed = [], False
             for k, d in enumerate(shape):
                 if isinstance(d, sym.RangeIndex):
@@ -1332,6 +1333,8 @@ def observable(it, fr, routine, include_locals=()):
         if n.lower() in fr.vars:
             add(n.lower(), fr.vars[n.lower()])
     for key, mf in sorted(it.modframes.items()):
+        params = {v.name.lower() for v in mf.routine.variables if getattr(v.type, 'parameter', False)}
         for n, obj in sorted(mf.vars.items()):
-            add(f'{key}::{n}', obj)
+            if n not in params:
+                add(f'{key}::{n}', obj)
     return out
